@@ -23,4 +23,5 @@ func TestC02(t *testing.T) {
 	evmx.RunWorkload(m, "balanced", m.N(3000, 100000), evmx.GenOpts{}, evmx.OracleC02)
 	evmx.RunWorkload(m, "revert", m.N(1500, 60000), evmx.GenOpts{Focus: "revert"}, evmx.OracleC02)
 	m.Floor(3000, 12)
+	m.Need("selfdestruct-again-after-being-paid-again")
 }
